@@ -143,6 +143,10 @@ class SymExprScenario(explore.Scenario):
         out.append(["update", "dict", [[0, ex[0]], [3, ex[-1]]]])
         out.append(["update", "pairs", [[1, ex[-1]], [1, ex[0]]]])
         out.append(["update", "dict", []])
+        # live operands: the mapping itself, its own items view, the mapping
+        # of another interval
+        for k in ("update_self", "update_own_items", "update_other"):
+            out.append([k])
         out.append(["assign", []])
         out.append(["assign", [[1, ex[0]]]])
         out.append(["assign", [[3, ex[0]], [0, ex[-1]]]])
@@ -238,6 +242,16 @@ class SymExprScenario(explore.Scenario):
                     sh.update(pairs)
                     got = d.update([(k, O[e]) for k, e in pairs])
                 want = None
+            elif kind == "update_self":
+                want = None
+                got = d.update(d)
+            elif kind == "update_own_items":
+                want = None
+                got = d.update(d.items())
+            elif kind == "update_other":
+                want = None
+                got = d.update(O["B2"].symbolic_expressions)
+                sh.update(w.shadow2)
             elif kind == "assign":
                 pairs = [(k, e) for k, e in op[1]]
                 O["B1"].symbolic_expressions = {k: O[e] for k, e in pairs}
